@@ -160,6 +160,40 @@ GATE = """class Gate {
 """
 
 
+def overload_cases(rng, proj, kinds):
+    """two declarations with one name and one arity but other parameter kinds, both called in one WHERE"""
+    if len(kinds) < 2:
+        return
+    for _ in range(6):
+        k1, k2 = rng.sample(kinds, 2)
+        q = QG.random_query(rng, kinds=[k1, k2], values=proj.values, n_entities=2, n_preds=0, where=False)
+        (ka, a), (kb, b) = q.from_items
+        name = rng.choice(["ov", "named", "isX", "check"])
+        fa, fb = rng.choice(["m", "n", a, "p1"]), rng.choice(["m", "q", b, "p2"])
+        fa = fa if fa not in (name,) + tuple(kinds) else "m"
+        fb = fb if fb not in (name,) + tuple(kinds) else "m"
+        pa = QG.Pred(name, [(ka, fa)], QG.accessor_atom(rng, fa, ka, proj.values))
+        pb = QG.Pred(name, [(kb, fb)], QG.accessor_atom(rng, fb, kb, proj.values))
+        ca, cb = ("call", name, (a,)), ("call", name, (b,))
+        conds = [QG.mk("and", ca, cb), QG.mk("and", cb, ca), QG.mk("or", ca, cb), QG.mk("and", QG.mk("not", ca), cb),
+                 QG.mk("or", cb, QG.mk("not", ca)), ca, cb]
+        preds2 = None
+        if rng.random() < 0.7:
+            g1, g2 = "u", "w"
+            p2a = QG.Pred(name + "2", [(ka, g1), (kb, g2)], QG.mk("and", QG.accessor_atom(rng, g1, ka, proj.values), QG.accessor_atom(rng, g2, kb, proj.values)))
+            p2b = QG.Pred(name + "2", [(kb, g1), (ka, g2)], QG.mk("or", QG.accessor_atom(rng, g1, kb, proj.values), QG.accessor_atom(rng, g2, ka, proj.values)))
+            preds2 = [p2a, p2b]
+            c2a, c2b = ("call", name + "2", (a, b)), ("call", name + "2", (b, a))
+            conds += [QG.mk("and", c2a, c2b), QG.mk("or", c2b, QG.mk("not", c2a)), QG.mk("and", c2b, ca)]
+        for order in ([pa, pb], [pb, pa]):
+            for c in conds:
+                v = QG.clone(q)
+                v.preds = list(order) + (preds2 or [])
+                v.cond = c
+                QG.flatten(v)
+                yield v
+
+
 def sweep(run, pid):
     C.build_driver()
     h, d = C.Harness(), C.Driver()
@@ -247,6 +281,13 @@ def sweep(run, pid):
                         run.count(("many-kinds", nk, text))
                         stats["from_%d_kinds_cases" % nk] += 1
                         judge(run, pid, proj, text, q, res, stats, mism)
+            # --- overloads: declarations with one name and one arity but other parameter kinds, in both orders
+            for q in overload_cases(rng, proj, kinds):
+                text = QG.plain(q)
+                res = E.engine_case(proj, d, text, q)
+                run.count(("overloads", pi, text))
+                stats["overload_cases"] += 1
+                judge(run, pid, proj, text, q, res, stats, mism)
             # --- predicate calls: body shapes x call contexts
             for q in predicate_cases(rng, proj, k1, limit=(120 if quick else None)):
                 text = QG.plain(q)
